@@ -1,9 +1,11 @@
 //! Hooks for property C38: the async gates live in place in `store.rs`
-//! (`dnssrv.resolve.after_cache_miss`, `dnssrv.resolve.after_store_read`, `dnssrv.insert.after_upsert`);
+//! (`dnssrv.resolve.after_cache_miss`, `dnssrv.resolve.after_store_read`, `dnssrv.insert.before_upsert`,
+//! `dnssrv.insert.after_upsert`);
 //! the in-process constructor is shared with C37.
 pub use super::c37::{App, StoreOptions};
 
 /// Gate labels, in the order a cache-missing lookup / an updating publish passes them.
 pub const GATE_AFTER_CACHE_MISS: &str = "dnssrv.resolve.after_cache_miss";
 pub const GATE_AFTER_STORE_READ: &str = "dnssrv.resolve.after_store_read";
+pub const GATE_BEFORE_UPSERT: &str = "dnssrv.insert.before_upsert";
 pub const GATE_AFTER_UPSERT: &str = "dnssrv.insert.after_upsert";
